@@ -24,8 +24,8 @@ U = {64: "U64", 128: "U128", 192: "U192", 256: "U256"}
 OPS = []
 
 
-def op(name, params, body, tier="quick", expect=None, note=""):
-    OPS.append(dict(name=name, params=params, body=body, tier=tier, expect=expect, note=note))
+def op(name, params, body, tier="quick", expect=None, note="", profile="k64"):
+    OPS.append(dict(name=name, params=params, body=body, tier=tier, expect=expect, note=note, profile=profile))
 
 
 def uint_ops(bits, tier="quick"):
@@ -140,6 +140,38 @@ op("boxed_shl_secret_shift_128", [("a", "U128", "sec:16"), ("sh", "u32", "secval
    "let x = BoxedUint::from(*a); let z = x.wrapping_shl(sh); let mut o = [0u64; 2]; o.copy_from_slice(z.as_words()); *r = U128::from_words(o);", tier="thorough")
 op("boxed_div_rem_128", [("a", "U128", "sec:16"), ("b", "U128", "sec:16"), ("q", "U128", "out:16")],
    "let x = BoxedUint::from(*a); let y = NonZero::new(BoxedUint::from(*b)).unwrap(); let (z, _) = x.div_rem(&y); let mut o = [0u64; 2]; o.copy_from_slice(z.as_words()); *q = U128::from_words(o);", tier="thorough")
+
+
+# ---- the same generic source in the 8-bit-word build (vlib/narrow.py): there the solver can also
+# decide leak points that sit behind multiplications (e.g. the Knuth add-back condition), which it
+# cannot at 64-bit words.  Claims about these wrappers are about the optimised IR of that build.
+def k8_ops():
+    for L, tier in ((4, "quick"), (3, "quick"), (2, "thorough")):
+        T = "Uint<%d>" % L
+        s, o = "sec:%d" % L, "out:%d" % L
+        op("k8_div_rem_%d" % L, [("a", T, s), ("b", T, s), ("q", T, o), ("r", T, o)],
+           "let nz = NonZero::new(*b).unwrap(); let (x, y) = a.div_rem(&nz); *q = x; *r = y;", tier, profile="k8")
+        op("k8_rem_%d" % L, [("a", T, s), ("b", T, s), ("r", T, o)],
+           "let nz = NonZero::new(*b).unwrap(); *r = a.rem(&nz);", tier, profile="k8")
+        op("k8_div_rem_limb_%d" % L, [("a", T, s), ("b", "Limb", "sec:1"), ("q", T, o), ("r", "Limb", "out:1")],
+           "let nz = NonZero::new(*b).unwrap(); let (x, y) = a.div_rem_limb(nz); *q = x; *r = y;", tier, profile="k8")
+        op("k8_split_mul_%d" % L, [("a", T, s), ("b", T, s), ("lo", T, o), ("hi", T, o)],
+           "let (x, y) = a.split_mul(b); *lo = x; *hi = y;", tier, profile="k8")
+        op("k8_sqrt_%d" % L, [("a", T, s), ("r", T, o)], "*r = a.sqrt();", tier, profile="k8")
+        op("k8_mul_mod_special_%d" % L, [("a", T, s), ("b", T, s), ("c", "Limb", "sec:1"), ("r", T, o)],
+           "*r = a.mul_mod_special(b, *c);", tier, profile="k8")
+        op("k8_cmp_%d" % L, [("a", T, s), ("b", T, s), ("r", "i8", "out:1")], "*r = Ord::cmp(a, b) as i8;", tier, profile="k8")
+        op("k8_add_sub_mod_%d" % L, [("a", T, s), ("b", T, s), ("p", T, s), ("r", "[%s; 3]" % T, "out:%d" % (3 * L))],
+           "*r = [a.add_mod(b, p), a.sub_mod(b, p), a.neg_mod(p)];", tier, profile="k8")
+        op("k8_inv_mod2k_%d" % L, [("a", T, s), ("k", "u32", "secval:32"), ("r", T, o)],
+           "*r = a.inv_mod2k(k).unwrap_or(Uint::ZERO);", tier, profile="k8")
+    op("k8_int_div_rem_2", [("a", "Int<2>", "sec:2"), ("b", "Int<2>", "sec:2"), ("q", "Int<2>", "out:2"), ("r", "Int<2>", "out:2")],
+       "let nz = NonZero::new(*b).unwrap(); let (x, y) = a.checked_div_rem(&nz); *q = x.unwrap_or(Int::ZERO); *r = y;", profile="k8")
+    op("k8_monty_mul_pow_2", [("a", "Uint<2>", "sec:2"), ("e", "Uint<2>", "sec:2"), ("m", "Uint<2>", "pub:2", ["fbff", "0380", "0300"]), ("r", "Uint<2>", "out:2")],
+       "let p = MontyParams::new_vartime(Odd::new(*m).unwrap()); let x = MontyForm::new(a, p); *r = (x * x.pow(e)).retrieve();", profile="k8")
+
+
+k8_ops()
 
 
 def rust_type_size(t):
